@@ -208,6 +208,7 @@ Definition verify_ac (O : oracles) (V : variant) (yts : list (N * yparams)) (c :
               let cm := mkCommon (yp_cp yp) lb (h_hash h) (cd_seed seedCon) (cd_round cd) (uv_index uc) (cp_cvt (yp_cp yp)) in
               match verify_votes O V cm (uv_certs uc) (uv_cc uc) step_certificate false with
               | Accept => HV Accept
+              | EPanic => HPanic          (* a panic is not wrapped into an error *)
               | e => AVotes e
               end
             end
